@@ -12,6 +12,8 @@ MANIFEST_ENTRY = {
     "note": "Deferred scheduling is modelled by a chain interpreter; `eventually` is a recording stub. The segment push phases, update_goal placement and the storage servers' test-and-set (C24) are outside these contracts. Writer counts bounded.",
     "technique": "contract-based deductive verification (pyvc VCs + z3) with a Deferred-chain model; writer tables bounded",
 }
+MANIFEST_ENTRY["text"] += ' Bounded end-to-end stand-in (run-time contract, never counted as proved): contracts/grid_mutable.py publishes 1..4 versions (plus a competing one) of SDMF/MDMF files on real StorageServers, composes the final disk state slot by slot from snapshots (newest/older/competing/deleted/bit-flipped/truncated/foreign), and checks reads, the MODE_READ survey, check/verify, repair with and without force, overwrite with failing servers and two concurrent writers against the ground truth on disk.'
+MANIFEST_ENTRY["technique"] += "; plus bounded end-to-end run-time scenario contracts on an in-process grid of the real components (stand-in, labelled bounded)"
 EXPLANATION = "State-machine and bookkeeping contracts of the real Publish methods."
 TRUSTED = ["twisted Deferred callback/errback semantics as implemented by contracts.lib.fire_chain", "foolscap eventually() only schedules the call"]
 ASSUMPTIONS = []
